@@ -368,7 +368,7 @@ pub fn parse_phdrs(b: &[u8]) -> Option<Vec<Phdr>> {
     let mut v = Vec::new();
     for i in 0..phnum {
         let o = phoff.checked_add(i * 56)?;
-        if o + 56 > b.len() {
+        if o.checked_add(56)? > b.len() {
             return None;
         }
         v.push(Phdr { p_type: r32(o)?, flags: r32(o + 4)?, offset: r64(o + 8)?, vaddr: r64(o + 16)?, filesz: r64(o + 32)?, memsz: r64(o + 40)?, align: r64(o + 48)? });
